@@ -86,6 +86,22 @@ add("C10", "msgpbt", "round-trip property testing (bytes / dict / JSON / Message
     "-0.0, NaN, control characters, full-length strings and all-0x00/0xFF byte arrays; byte-for-byte identity after each round trip, "
     "storage-disjoint copies, refusal of a foreign version hash. Exploration level.", MSG_NOTE, "DESIGN.md 4 C10")
 
+add("C08", "scripted-peer", "model-based property testing of Client.read_message against a reference reader on a real socket pair; exhaustive adjacency and disconnect-offset tables + generated scripts",
+    "A real pyrtma.Client on socketpair()/loopback TCP reads scripted frame sequences (good, unsubscribed, ACK, unknown type, wrong size, "
+    "wrong version, zero length) with subscription changes between reads; a reference reader written from the documentation decides what "
+    "each call must return or raise, byte-exactly; all ordered pairs/triples of frame kinds and every disconnect byte offset are "
+    "enumerated, longer scripts are generated. Exploration level.",
+    "Trusted base: the kernel's AF_UNIX/TCP stream sockets, the reference reader in checks/c08.py, Hypothesis. The client's _sock and "
+    "_connected are set directly to install the scripted connection (the only private pokes).", "DESIGN.md 4 C08")
+add("C17", "sched", "schedule-exploring property testing: harness-owned cooperative scheduler over the data logger's synchronisation operations (generated tapes + exhaustive DFS of small histories)",
+    "The recording thread and the real writer thread run under a scheduler that picks the next runnable thread before every Event/Thread "
+    "operation from a generated tape; histories of update/pause/resume/restart/stop with virtual time crossing flush and subdivision "
+    "deadlines; after stop the raw/JSON/quicklogger files must contain exactly the selected messages once, in order. All schedules of "
+    "small histories are enumerated by DFS (thorough: every history of <= 4 updates with <= 2 flush deadlines). Exploration level.",
+    "Trusted base: the scheduler shim replacing data_collection.threading/time (granularity = synchronisation operations, as the "
+    "property states; races between plain field accesses inside one interval are not explored), the package's own QLReader for the "
+    "quicklogger format.", "DESIGN.md 4 C17")
+
 PLANNED = {}
 
 
